@@ -68,7 +68,7 @@ class C16Machine(Machine):
            "result_missing_empty_cell", "target_cell_changed", "pd_missing_is_na", "pd_strict_raised",
            "zero_rows", "fault_in_other_column", "ambiguous_mode_converted_cell", "file_larger_than_8k", "table_ge_40_rows",
            "eol_crlf", "eol_lf", "eol_mixed", "no_final_line_terminator", "sep_explicit_tab", "relative_path", "file_name_varied", "file_name_with_temp_or_backup_suffix", "same_path_again_after_failure",
-           "same_path_again_after_success", "pd_target_is_source", "pd_dtype_object", "pd_dtype_string", "pd_dtype_category", "pd_category_with_unused_categories", "pd_int_labels", "pd_int_labels_not_positions", "file_flags_left_to_defaults", "pd_flags_left_to_defaults", "cell_convertible_only_after_extension", "fault_in_header", "cell_with_unicode_line_boundary",
+           "same_path_again_after_success", "pd_target_is_source", "pd_dtype_object", "pd_dtype_string", "pd_dtype_category", "pd_category_with_unused_categories", "converter_subclass_with_identifier_hook", "pd_int_labels", "pd_int_labels_not_positions", "file_flags_left_to_defaults", "pd_flags_left_to_defaults", "cell_convertible_only_after_extension", "fault_in_header", "cell_with_unicode_line_boundary",
            "pd_index_custom", "pd_index_reversed", "pd_index_offset", "pd_index_duplicated", "pd_index_sliced",
            "pd_index_named", "pd_index_multi", "pd_index_shuffled_dup"]
     )
@@ -103,6 +103,8 @@ class C16Machine(Machine):
             # the converter is extended (add_prefix / add_record, merge or append) between bulk operations,
             # and the same tables are converted before and after: bulk results must follow the scalar ones
             "extend": rng.random() < 0.3,
+            # a converter of a subclass that overrides the documented standardize_identifier hook
+            "hooked": rng.random() < 0.15,
         }
         if rng.random() < (0.03 if tier == "quick" else 0.06):
             # rare large table: crosses the 8 KiB text-buffer size and any plausible chunk size
@@ -140,6 +142,8 @@ class C16Machine(Machine):
 
     # ----------------------------------------------------------- generation
     def gen_op(self, rng):
+        if getattr(self, "setup_failed", False):
+            return None
         if self.conv is None:
             cfg = self.config
             recs = gen_valid_records(rng, cfg["curie_pool"], cfg["uri_pool"], cfg["n_records"], with_pattern=False)
@@ -148,7 +152,7 @@ class C16Machine(Machine):
                 d = cfg["delimiter"]
                 recs.append({"prefix": "amb", "uri_prefix": "amb" + d, "prefix_synonyms": [], "uri_prefix_synonyms": [],
                              "pattern": None})
-            return {"op": "setup", "records": recs, "delimiter": cfg["delimiter"]}
+            return {"op": "setup", "records": recs, "delimiter": cfg["delimiter"], "hooked": bool(cfg.get("hooked"))}
         if self.plan is None:
             self.plan = self._plan(rng)
         if not self.plan:
@@ -165,6 +169,7 @@ class C16Machine(Machine):
         if func == "pd_standardize_prefix":
             return {"canon": r.prefix, "syn": rng.choice(r.prefix_synonyms or [r.prefix]), "unknown": "zz",
                     "both": r.prefix, "empty": "", "nodelim": "zz", "other_kind": r.uri_prefix,
+                    "banana": r.prefix, "invalid_id": r.prefix,
                     "awkward": rng.choice([r.prefix + "\n", "nan", "NA", "None", r.prefix + " "])}[cls_]
         if cls_ == "canon":
             return (r.uri_prefix + ident) if compressing else (r.prefix + d + ident)
@@ -179,6 +184,10 @@ class C16Machine(Machine):
             return rng.choice(r.uri_prefix_synonyms or [r.uri_prefix]) + ident
         if cls_ == "unknown":
             return ("http://unknown.example/" + ident) if compressing else ("zz" + d + ident)
+        if cls_ == "banana":
+            return r.prefix + d + r.prefix + d + "1"
+        if cls_ == "invalid_id":
+            return r.prefix + d + "bad" + ident
         if cls_ == "both":
             return "amb" + d + ident
         if cls_ == "empty":
@@ -202,7 +211,8 @@ class C16Machine(Machine):
             row = []
             for c in range(width):
                 if c == col:
-                    cls_ = rng.choice(["canon", "canon", "syn", "unknown", "both", "empty", "nodelim", "other_kind", "awkward"])
+                    cls_ = rng.choice(["canon", "canon", "syn", "unknown", "both", "empty", "nodelim", "other_kind", "awkward"]
+                                      + (["banana", "banana", "invalid_id", "invalid_id"] if getattr(self, "hooked", False) else []))
                     row.append(self._cell(rng, func, cls_))
                 else:
                     cell = rng.choice(NASTY) if rng.random() < cfg["p_nasty"] else "v" + str(rng.randint(0, 9))
@@ -427,7 +437,33 @@ class C16Machine(Machine):
     def apply(self, op):
         c = self.curies
         if op["op"] == "setup":
-            self.conv = c.Converter([c.Record(**r) for r in op["records"]], delimiter=op.get("delimiter", ":"))
+            cls = c.Converter
+            if op.get("hooked"):
+                # "for all strict converters": also one of a SUBCLASS that overrides the documented hook
+                # standardize_identifier (strip a redundant "<prefix><delimiter>", reject some identifiers) -
+                # the bulk functions must go through the same overridable scalar methods
+                class Hooked(c.Converter):
+                    def standardize_identifier(self, prefix, identifier):
+                        ident = identifier.removeprefix(prefix + self.delimiter)
+                        return None if ident.startswith("bad") else ident
+
+                cls = Hooked
+                self.probe("converter_subclass_with_identifier_hook")
+            self.hooked = bool(op.get("hooked"))
+            objs = []
+            for r in op["records"]:
+                try:
+                    objs.append(c.Record(**r))
+                except Exception:  # noqa: BLE001 - which records exist is not this property's business
+                    self.event("record_not_constructible")
+            if not objs:
+                # every drawn record was refused by the Record class: a plain record instead
+                try:
+                    objs.append(c.Record(prefix="a", uri_prefix="http://x.org/a/"))
+                except Exception:  # noqa: BLE001
+                    self.setup_failed = True
+                    return {"records": 0}
+            self.conv = cls(objs, delimiter=op.get("delimiter", ":"))
             self.dir = tempfile.mkdtemp(prefix="verif-c16-")
             self.event("setup")
             return {"records": len(op["records"])}
@@ -638,7 +674,7 @@ class C16Machine(Machine):
                         self.fault_nontrivial = True
                         break
             self.note_state(["file", func, "raised", why and why.split(":")[0], first_fail, len(rows)], "file", "raised")
-            return {"raised": type(err).__name__, "why": why, "row": first_fail}
+            return {"raised": True, "why": why, "row": first_fail}
 
         # returned normally
         tolerant = False
@@ -819,7 +855,7 @@ class C16Machine(Machine):
                 raise Violation(PROP, "unexpected_raise", site, {"exception": type(err).__name__, "op": _short(op)})
             self.probe("pd_strict_raised")
             self.fault("pd_cell_raises")
-            return {"raised": type(err).__name__}
+            return {"raised": True}
         if first_fail is not None:
             raise Violation(PROP, "missing_raise", site, {"first_failing_row": first_fail[0], "op": _short(op)})
         out_col = col if target is None else target
